@@ -52,6 +52,15 @@ func (s *Script) Define(prefix, sortName, term string) string {
 	return n
 }
 
+// DefineConst introduces a declared constant constrained to equal term (usable inside patterns,
+// unlike a define-fun, which the solvers expand).
+func (s *Script) DefineConst(prefix, sortName, term string) string {
+	s.nfresh++
+	n := fmt.Sprintf("%s!%d", sanitize(prefix), s.nfresh)
+	s.cmds = append(s.cmds, fmt.Sprintf("(declare-const %s %s)\n(assert (= %s %s))", n, sortName, n, term))
+	return n
+}
+
 func (s *Script) Mark() int { return len(s.cmds) }
 
 func isAtom(t string) bool {
@@ -189,6 +198,46 @@ func eq(a, b string) string {
 	return app("=", a, b)
 }
 
+// slice component accessors that see through literal mk_slice terms
+func sliceParts(t string) []string {
+	if !strings.HasPrefix(t, "(mk_slice ") {
+		return nil
+	}
+	ps := splitSexprs(t[len("(mk_slice ") : len(t)-1])
+	if len(ps) != 4 {
+		return nil
+	}
+	return ps
+}
+
+func slArr(t string) string {
+	if p := sliceParts(t); p != nil {
+		return p[0]
+	}
+	return app("arr", t)
+}
+
+func slOff(t string) string {
+	if p := sliceParts(t); p != nil {
+		return p[1]
+	}
+	return app("off", t)
+}
+
+func slLen(t string) string {
+	if p := sliceParts(t); p != nil {
+		return p[2]
+	}
+	return app("len", t)
+}
+
+func slCap(t string) string {
+	if p := sliceParts(t); p != nil {
+		return p[3]
+	}
+	return app("cap", t)
+}
+
 func intLit(v int64) string {
 	if v < 0 {
 		if v == -9223372036854775808 {
@@ -222,6 +271,7 @@ type Obligation struct {
 	Model   string  `json:"model,omitempty"`
 	Detail  string  `json:"detail,omitempty"`
 	Bytes   int     `json:"smt_bytes"`
+	Agree   int     `json:"solvers_agreeing,omitempty"`
 	GoalTxt string  `json:"goal,omitempty"`
 }
 
@@ -263,6 +313,13 @@ var solvers = []solverSpec{
 	}, ""},
 	{"z3", func(f string, t, seed int) []string {
 		return []string{"z3", fmt.Sprintf("-T:%d", t), fmt.Sprintf("smt.random_seed=%d", seed), f}
+	}, ""},
+	// pure E-matching configurations (Boogie style): no model-based instantiation, no auto-config
+	{"z3-new-em", func(f string, t, seed int) []string {
+		return []string{"z3-new", fmt.Sprintf("-T:%d", t), "smt.auto_config=false", "smt.mbqi=false", fmt.Sprintf("smt.random_seed=%d", seed), f}
+	}, ""},
+	{"z3-em", func(f string, t, seed int) []string {
+		return []string{"z3", fmt.Sprintf("-T:%d", t), "smt.auto_config=false", "smt.mbqi=false", fmt.Sprintf("smt.random_seed=%d", seed), f}
 	}, ""},
 	{"cvc5", func(f string, t, seed int) []string {
 		return []string{"cvc5", "--lang", "smt2", "-q", fmt.Sprintf("--tlimit=%d", t*1000), fmt.Sprintf("--seed=%d", seed), f}
@@ -330,6 +387,7 @@ func discharge(o *Obligation, prelude, dir string, timeoutS, seed int, both bool
 	}
 	var results []solveResult
 	decided := 0
+	bases := map[string]bool{}
 	var final *solveResult
 	for range solvers {
 		r := <-ch
@@ -345,9 +403,12 @@ func discharge(o *Obligation, prelude, dir string, timeoutS, seed int, both bool
 				o.TimeS = time.Since(start).Seconds()
 				return
 			}
-			if !both || decided >= 2 {
+			bases[strings.TrimSuffix(r.solver, "-em")] = true
+			if !both || len(bases) >= 2 {
+				o.Agree = len(bases)
 				break
 			}
+			o.Agree = len(bases)
 		}
 	}
 	cancel()
